@@ -27,7 +27,7 @@ def strata(tier):
         algos=('lru', 'mru', 'lfu', 'rr', 'no'), maxsizes=(2, 1, 3, 5), purges=(False, True), backends=BACKENDS, families=('memarch', 'persist'),
         weights={'call': 14, 'burst': 1, 'load': 2, 'dump': 1, 'dumpk': 1, 'loadk': 1, 'clear': 1, 'clearkeep': 0,
                  'arch_off': 1, 'arch_on': 2, 'awrite': 1},
-        max_ops=30 if tier == 'quick' else 60, pool=(3, 7), prefill_pct=10, attach_later_pct=25)
+        max_ops=30 if tier == 'quick' else 60, pool=(3, 7), prefill_pct=10, attach_later_pct=25, relpath_pct=40)
 
 
 def check_trace(case, tr):
@@ -200,6 +200,6 @@ def extra_passes(run, tier, shard, nshards):
     exhaustive_sweep(run, tier, shard, nshards, lambda case, tr: check_trace(case, tr)[0])
 
 
-REQUIRED_CLASSES = ['archive_refused_victim', 'attached_after_decoration', 'evicted_to_archive', 'purged_to_archive', 'victim_was_loaded', 'late_attach',
+REQUIRED_CLASSES = ['relative_dir_archive:new', 'chdir_away', 'archive_refused_victim', 'attached_after_decoration', 'evicted_to_archive', 'purged_to_archive', 'victim_was_loaded', 'late_attach',
                     'eff_algo:lfu', 'eff_algo:mru', 'eff_algo:rr', 'eff_algo:no', 'module:safe']
 TRIGGERS = {}
